@@ -58,7 +58,7 @@ ASSUMPTIONS = [
     "sampling, not proof",
 ]
 PROBES = [
-    "rt_path_suffix", "rt_fileobj", "rt_bytesio", "rt_dtype_cast", "rt_key", "rt_multichannel", "err_no_suffix",
+    "rt_path_suffix", "rt_fileobj", "rt_fileobj_path_replaced", "rt_bytesio", "rt_zero_dim", "rt_dtype_cast", "rt_key", "rt_multichannel", "err_no_suffix",
     "err_stream_no_force_as", "err_unknown_force_as", "wds_header_fault", "wds_payload_fault", "wds_last_byte",
     "wds_array_from_damaged", "wds_none", "wds_non_array_return", "wds_wrong_suffix", "wds_unknown_suffix", "wds_valid_image",
 ] + ["rt_" + k for k in ct.KINDS] + ["wds_" + k for k in ct.KINDS if k != "raw"]
@@ -71,7 +71,9 @@ def generate(rng, tier, k):
         spec = ct.gen_spec(rng)
         kind = spec["kind"]
         scn = {"mode": "rt", "spec": spec,
-               "access": rng.choice(("path", "path", "fileobj", "bytesio")) if kind != "raw" else rng.choice(("path", "fileobj")),
+               "access": rng.choice(("path", "path", "fileobj", "fileobj_replaced", "bytesio")) if kind != "raw"
+               else rng.choice(("path", "fileobj")),
+               "other": ct.gen_spec(rng, kind),
                "dtype_req": None,
                "use_key": rng.random() < 0.6, "key_pick": rng.randrange(16),
                "err": rng.choice((None, None, "no_suffix", "stream_no_force", "bad_force_as"))}
@@ -133,6 +135,8 @@ def _exec_rt(scn, res, tr):
             expected = ent[None]
         if kind in ct.AUDIO and expected.ndim == 2:
             res.probe("rt_multichannel")
+        if expected.ndim == 0:
+            res.probe("rt_zero_dim")
         dt = scn.get("dtype_req")
         if kind == "raw":
             kw["dtype"] = expected.dtype
@@ -146,11 +150,21 @@ def _exec_rt(scn, res, tr):
             src = path
             if kind == "raw":
                 kw["force_as"] = "file"
-        elif access == "fileobj":
+        elif access in ("fileobj", "fileobj_replaced"):
             res.probe("rt_fileobj")
             fobj = open(path, "rb")
             src = fobj
             kw["force_as"] = ct.FORCE_AS[kind]
+            if access == "fileobj_replaced":
+                # the name the stream was opened under now points at ANOTHER container of the same kind: the stream
+                # (still the old inode) is what must be read
+                res.probe("rt_fileobj_path_replaced")
+                tmp2 = tempfile.mkdtemp(prefix="verif-c11b-", dir=env.scratch_base())
+                try:
+                    p2, _, _, _ = ct.image(scn.get("other") or spec, tmp2)
+                    os.replace(p2, path)
+                finally:
+                    shutil.rmtree(tmp2, ignore_errors=True)
         else:
             res.probe("rt_bytesio")
             src = io.BytesIO(data)
